@@ -8,10 +8,11 @@ import core
 import toy
 
 REQUIRED_THEOREMS = [
-    'C18_format_chains_bijection', 'C18_format_chains_entry', 'C18_format_chains_overwrite_counterexample',
-    'hierNames_wellformed', 'C18_initial_structure_partial', 'C18_initial_structure',
+    'C18_format_chains_bijection', 'C18_format_chains_entry', 'C18_format_chains_entry_filter',
+    'C18_format_chains_overwrite_counterexample', 'hierNames_wellformed', 'filterNames_wellformed',
+    'C18_initial_structure', 'C18_initial_entry', 'C18_initial_structure_legacy_partial',
     'C18_initial_structure_counterexample', 'C18_initial_structure_filter', 'C18_table_pairs',
-    'C18_readback', 'C18_roundtrip_example']
+    'C18_readback', 'C18_roundtrip', 'C18_roundtrip_example']
 RULE = ('random posteriors: individual (LogPosterior), hierarchical (1-3 population sub-models out of '
         'Gaussian / log-normal centred and non-centred, truncated Gaussian, pooled, heterogeneous, covariate-'
         'wrapped Gaussian and pooled, reduced), 1-4 individuals, 1-2 dims per sub-model, and population-filter '
@@ -63,9 +64,8 @@ def gen_config(rng, allow_covp=True):
         cfg.append(('G', 1))
     n_ids = int(rng.integers(1, 5))
     custom_ids = bool(rng.random() < 0.6)
-    # (a ReducedPopulationModel over a heterogeneous model caches stale sizes: Appendix A #19, C17's business)
     return {'cfg': cfg, 'n_ids': n_ids, 'custom_ids': custom_ids, 'toy_seed': int(rng.integers(0, 1000)),
-            'reduced': bool(rng.random() < 0.2) and all(kd != 'H' for kd, _ in cfg),
+            'reduced': bool(rng.random() < 0.2),
             'prefix_names': bool(rng.random() < 0.35)}
 
 
@@ -247,7 +247,7 @@ def initial_case(ctx, chi, lp, pm, cov, flags, label, inp, rng, n_ids):
     except Exception as e:  # noqa
         kind = core.errkind(e)
         ctx.errkinds.add(kind)
-        mo = ctx.model('C18.init_row', True, flags, n_ids, [1.0] * lp.n_parameters(exclude_bottom_level=True),
+        mo = ctx.model('C18.init_row', flags, n_ids, [1.0] * lp.n_parameters(exclude_bottom_level=True),
                        [[1.0] * sum(f[0] for f in flags)] * n_ids)
         ctx.agree('C18.initial/' + label, kind, mo[0], inp)
         why = 'C18.initial_structure/' + label
@@ -302,10 +302,7 @@ def hier_initial_structure(ctx, chi, lp, pm, cov, flags, x0, seed, n, inp, n_ids
         ctx.spec('C18.initial_structure/hierarchical', len(want) == x0.shape[1] and
                  np.array_equal(np.asarray(want), x0[s]), inp,
                  {'row': s, 'chi': x0[s], 'replayed': want})
-        # the code as it is (isinstance), else the variant the property demands (a repaired chi)
-        variants = [ctx.model('C18.init_row', lg, flags, n_ids, list(top[s]), [list(v) for v in pop])
-                    for lg in (True, False)]
-        mo = next((m for m in variants if core.close(['ok', x0[s]], m, 0.0)), variants[0])
+        mo = ctx.model('C18.init_row', flags, n_ids, list(top[s]), [list(v) for v in pop])
         ctx.agree('C18.initial/hierarchical', ['ok', x0[s]], mo, inp, rtol=0.0)
 
 
@@ -488,31 +485,73 @@ def table_case(ctx, chi, lp, label, inp, rng):
 
 
 def controller_initial_points(ctx, chi, rng, k):
-    """the points a controller starts from are sample_initial_parameters(n_runs, seed), run by run"""
-    n_mech = 2
+    """a real SamplingController.run on a recording posterior (individual or hierarchical):
+    * the points a controller starts from are sample_initial_parameters(n_runs, seed), run by run;
+    * every (chain, draw) row of the returned dataset, re-assembled with get_parameter_names() / get_id(),
+      is a parameter vector the sampler actually evaluated (a permuted / mislabelled column would not be)"""
     tseed = int(rng.integers(0, 1000))
     log = []
+    hier = bool(k % 2)
+    if hier:
+        class RecH(chi.HierarchicalLogPosterior):
+            def __call__(self, parameters):
+                log.append(np.array(parameters, float))
+                return super().__call__(parameters)
+        c = gen_config(rng, allow_covp=True)
+        c['reduced'] = False
+        # the last dimension is the noise scale: keep it positive so that the sampler's start is finite
+        c['cfg'] = list(c['cfg'][:-1]) + [(['LN', 'LNnc', 'P', 'H', 'TG'][int(rng.integers(5))], c['cfg'][-1][1])]
+        _, h, pm, subs, cov, lls = build_hier(chi, c)
+        lp = RecH(h, prior_for(h.n_parameters(exclude_bottom_level=True), c['toy_seed']))
+        desc = {'config': c}
+    else:
+        n_mech = int(rng.integers(1, 4))
 
-    class Rec(chi.LogPosterior):
-        def __call__(self, parameters):
-            log.append(np.array(parameters, float))
-            return super().__call__(parameters)
-    ll = chi.LogLikelihood(toy.ToyModel(1, n_mech, tseed), chi.GaussianErrorModel(), [1.0, 2.0, 1.5],
-                           [0.5, 1.0, 2.0])
-    lp = Rec(ll, prior_for(n_mech + 1, tseed))
+        class Rec(chi.LogPosterior):
+            def __call__(self, parameters):
+                log.append(np.array(parameters, float))
+                return super().__call__(parameters)
+        ll = chi.LogLikelihood(toy.ToyModel(1, n_mech, tseed), chi.GaussianErrorModel(), [1.0, 2.0, 1.5],
+                               [0.5, 1.0, 2.0])
+        lp = Rec(ll, prior_for(n_mech + 1, tseed))
+        desc = {'n_mech': n_mech, 'toy_seed': tseed}
     seed = int(rng.integers(0, 1000))
     n_runs = int(rng.integers(1, 4))
-    inp = {'kind': 'controller_initial', 'k': k, 'seed': seed, 'n_runs': n_runs}
-    ctx.case('controller_initial/runs%d' % n_runs)
+    inp = {'kind': 'controller_initial', 'k': k, 'seed': seed, 'n_runs': n_runs, **desc}
+    ctx.case('controller_run/%s/runs%d' % ('hier' if hier else 'individual', n_runs),
+             nontrivial='controller_run/%s/%d/%d' % (hier, n_runs, lp.n_parameters()) if hier else False)
     ctrl = chi.SamplingController(lp, seed=seed)
     ctrl.set_n_runs(n_runs)
     ctrl.set_parallel_evaluation(False)
     want = np.asarray(lp.sample_initial_parameters(n_samples=n_runs, seed=seed), float)
     log.clear()
-    ctrl.run(n_iterations=2)
+    with np.errstate(all='ignore'):
+        ds = ctrl.run(n_iterations=int(rng.integers(2, 6)))
     first = np.array(log[:n_runs])
     ctx.spec('C18.controller_initial_points', first.shape == want.shape and np.array_equal(first, want), inp,
              {'first_evaluations': first, 'expected': want})
+    names = lp.get_parameter_names()
+    ids = lp.get_id()
+    if not isinstance(ids, list):
+        ids = [None] * len(names)
+    evaluated = {np.asarray(v, float).tobytes() for v in log}
+    ok = True
+    detail = {}
+    try:
+        cols = []
+        for nm, i in zip(names, ids):
+            da = ds[nm]
+            cols.append(np.asarray(da.values if i is None else da.sel(individual=i).values, float))
+        rows = np.stack(cols, axis=-1)        # (chain, draw, parameter)
+        for ci in range(rows.shape[0]):
+            for di in range(rows.shape[1]):
+                if rows[ci, di].tobytes() not in evaluated:
+                    ok = False
+                    detail = {'chain': ci, 'draw': di, 'row': rows[ci, di]}
+    except Exception as e:  # noqa
+        ok = False
+        detail = {'raised': repr(e)[:200]}
+    ctx.spec('C18.run_dataset_rows_are_evaluated_points', ok, inp, detail)
 
 
 # ----------------------------------------------------------------------------------------
@@ -608,9 +647,11 @@ def hier_case(ctx, chi, c, k, rng):
     fmt, err = format_case(ctx, chi, lp, 'hierarchical', inp, rng)
     if fmt is None:
         if err is not None:
+            # every constructible posterior can be handed to a controller (its initial points exist)
             ctx.branches.add('controller:' + err)
+            ctx.spec('C18.controller_constructible', False, inp, {'raised': err})
         return
-    if all(kd not in ('CovG', 'CovP') for kd in kinds) and not c['reduced'] and any(not f[2] for f in flags):
+    if not c['reduced'] and any(not f[2] for f in flags):
         readback_case(ctx, chi, c, fmt, lls, inp, rng)
     if k % 4 == 0:
         table_case(ctx, chi, lp, 'hierarchical', inp, rng)
@@ -620,36 +661,36 @@ def corpus(ctx, chi):
     rng = ctx.sub_rng(999)
     # witness of C18_initial_structure_counterexample: wrapped pooled + Gaussian, two individuals
     c = {'cfg': [('CovP', 1), ('G', 1)], 'n_ids': 2, 'custom_ids': True, 'toy_seed': 1, 'reduced': False}
-    hier_case(ctx, chi, c, 0, rng)
+    ctx.guard(hier_case, ctx, chi, c, 0, rng)
     # C18_roundtrip_example: Gaussian + pooled dimension, two individuals
     c = {'cfg': [('G', 1), ('P', 1)], 'n_ids': 2, 'custom_ids': True, 'toy_seed': 2, 'reduced': False}
-    hier_case(ctx, chi, c, 0, rng)
+    ctx.guard(hier_case, ctx, chi, c, 0, rng)
     c = {'cfg': [('H', 1), ('LN', 2), ('P', 1)], 'n_ids': 3, 'custom_ids': False, 'toy_seed': 3, 'reduced': False}
-    hier_case(ctx, chi, c, 0, rng)
+    ctx.guard(hier_case, ctx, chi, c, 0, rng)
 
 
 def run_one(ctx, chi, kind, k):
     rng = ctx.sub_rng({'hier': 1, 'individual': 2, 'filter': 3, 'ctrl': 4}[kind] * 1000003 + k)
     if kind == 'hier':
-        hier_case(ctx, chi, gen_config(rng), k, rng)
+        ctx.guard(hier_case, ctx, chi, gen_config(rng), k, rng)
     elif kind == 'individual':
-        individual_dataset_case(ctx, chi, rng, k)
+        ctx.guard(individual_dataset_case, ctx, chi, rng, k)
         if k % 3 == 0:
             n_mech = int(rng.integers(1, 3))
             ll = chi.LogLikelihood(toy.ToyModel(1, n_mech, k), chi.GaussianErrorModel(), [1.0, 2.0, 1.5],
                                    [0.5, 1.0, 2.0])
             lp = chi.LogPosterior(ll, prior_for(n_mech + 1, k))
-            table_case(ctx, chi, lp, 'individual', {'kind': 'individual-table', 'k': k}, rng)
+            ctx.guard(table_case, ctx, chi, lp, 'individual', {'kind': 'individual-table', 'k': k}, rng)
     elif kind == 'filter':
-        filter_case(ctx, chi, rng, k)
+        ctx.guard(filter_case, ctx, chi, rng, k)
     else:
-        controller_initial_points(ctx, chi, rng, k)
+        ctx.guard(controller_initial_points, ctx, chi, rng, k)
 
 
 def run(ctx):
     chi = core.import_chi()
     corpus(ctx, chi)
-    n = {'quick': (260, 30, 40, 8), 'thorough': (6000, 400, 600, 60)}[ctx.tier]
+    n = {'quick': (400, 40, 60, 16), 'thorough': (18000, 1100, 1800, 150)}[ctx.tier]
     for kind, cnt in zip(('hier', 'individual', 'filter', 'ctrl'), n):
         for k in range(cnt):
             run_one(ctx, chi, kind, k)
